@@ -9,9 +9,11 @@ import (
 
 	authp "github.com/buzzfeed/sso/internal/auth/providers"
 	"github.com/buzzfeed/sso/internal/pkg/groups"
+	"github.com/buzzfeed/sso/internal/pkg/sessions"
 	"github.com/buzzfeed/sso/verif/engine/explore"
 	"github.com/buzzfeed/sso/verif/engine/sched"
 	fw "github.com/buzzfeed/sso/verif/framework"
+	"github.com/buzzfeed/sso/verif/harness"
 )
 
 // C17 — group caches. Scenario families, all on the real code under the scheduler:
@@ -164,6 +166,17 @@ func (a adminFake) ListMemberships(group string, depth int) ([]string, error) { 
 func (a adminFake) CheckMemberships(gs []string, user string) ([]string, error) {
 	return a.d.check(gs, user)
 }
+
+// cognitoAdminFake adapts the scripted directory to Cognito's admin interface (questions by user name).
+type cognitoAdminFake struct{ d *directory }
+
+func (a cognitoAdminFake) ListMemberships(group string) ([]string, error) { return a.d.list(group) }
+func (a cognitoAdminFake) CheckMemberships(user string) ([]string, error) {
+	return a.d.check([]string{"a", "b"}, user)
+}
+func (a cognitoAdminFake) GlobalSignOut(*sessions.SessionState) error { return nil }
+
+var c17IdP *harness.FakeIdP
 
 func liveLoops(s *sched.Sched) int {
 	n := 0
@@ -446,6 +459,7 @@ func localOracle(d *directory, obs []*localObs, s *sched.Sched) (probs []c17Prob
 // ---- google/* -------------------------------------------------------------------------------
 
 type googleScenario struct {
+	Cognito bool // drive AmazonCognitoProvider instead of GoogleProvider
 	Name    string
 	Prefill []string // groups filled (and loops started) before the threads run
 	Threads [][]localQ
@@ -458,14 +472,38 @@ func googleExecute(x *explore.Exec, sc googleScenario) (*directory, []*localObs,
 	var obs []*localObs
 	var probs []c17Problem
 	s := sched.Run(x, func(s *sched.Sched) { s.TimerBudget = sc.Ticks }, func(s *sched.Sched) {
-		d = &directory{s: s, x: x, members: map[string][]string{"a": {"u1"}, "b": {"u2"}}, reported: map[string]map[bool]bool{}}
-		gp, err := authp.NewGoogleProvider(&authp.ProviderData{}, "", "", "", "")
-		if err != nil {
-			panic(explore.HarnessError{Msg: err.Error()})
+		d = &directory{s: s, x: x, members: map[string][]string{"a": {"u1"}, "b": {"u2"}, "c": {"u1", "u2"}}, reported: map[string]map[bool]bool{}}
+		var ask func(user string, gs []string) ([]string, error)
+		var fc *groups.FillCache
+		if sc.Cognito {
+			if c17IdP == nil {
+				c17IdP = harness.NewFakeIdP()
+			}
+			// the user name is looked up over HTTP (userinfo): the access token names the user
+			c17IdP.Answer = func(c *harness.IdPCall) harness.AuthAnswer {
+				u := strings.TrimPrefix(c.Header.Get("Authorization"), "Bearer token-of-")
+				return harness.AuthAnswer{Status: 200, Body: `{"email":"` + u + `@corp.test","username":"` + u + `"}`}
+			}
+			cp, err := authp.NewAmazonCognitoProvider(&authp.ProviderData{}, c17IdP.Addr(), "us-east-1", "pool", "id", "secret")
+			if err != nil {
+				panic(explore.HarnessError{Msg: err.Error()})
+			}
+			cp.AdminService = cognitoAdminFake{d}
+			fc = groups.NewFillCache(cp.PopulateMembers, time.Minute)
+			cp.GroupsCache = fc
+			ask = func(user string, gs []string) ([]string, error) {
+				return cp.ValidateGroupMembership(user, gs, "token-of-"+user)
+			}
+		} else {
+			gp, err := authp.NewGoogleProvider(&authp.ProviderData{}, "", "", "", "")
+			if err != nil {
+				panic(explore.HarnessError{Msg: err.Error()})
+			}
+			gp.AdminService = adminFake{d}
+			fc = groups.NewFillCache(gp.PopulateMembers, time.Minute)
+			gp.GroupsCache = fc
+			ask = func(user string, gs []string) ([]string, error) { return gp.ValidateGroupMembership(user, gs, "tok") }
 		}
-		gp.AdminService = adminFake{d}
-		fc := groups.NewFillCache(gp.PopulateMembers, time.Minute)
-		gp.GroupsCache = fc
 		loopGroups := map[string]bool{}
 		for _, g := range sc.Prefill {
 			fc.Update(g)
@@ -485,7 +523,7 @@ func googleExecute(x *explore.Exec, sc googleScenario) (*directory, []*localObs,
 					}
 					o := &localObs{Thread: t, Q: q, Start: d.tick()}
 					obs = append(obs, o)
-					ans, err := gp.ValidateGroupMembership(q.User, append([]string(nil), q.Groups...), "tok")
+					ans, err := ask(q.User, append([]string(nil), q.Groups...))
 					o.Answer, o.Err = ans, err != nil
 					o.End = d.tick()
 					if n := liveLoops(s); n > len(loopGroups) {
@@ -498,7 +536,9 @@ func googleExecute(x *explore.Exec, sc googleScenario) (*directory, []*localObs,
 	return d, obs, s, probs
 }
 
-func googleOracle(d *directory, obs []*localObs, s *sched.Sched, probs []c17Problem) []c17Problem {
+type c17Flags struct{ cognito bool }
+
+func googleOracle(d *directory, obs []*localObs, s *sched.Sched, probs []c17Problem, sc c17Flags) []c17Problem {
 	if s.Panic != nil {
 		return append(probs, c17Problem{"panic", fmt.Sprintf("panic: %v", s.Panic)})
 	}
@@ -530,6 +570,9 @@ func googleOracle(d *directory, obs []*localObs, s *sched.Sched, probs []c17Prob
 		// a question that touched the directory directly must return exactly that direct answer
 		for _, c := range d.checks {
 			if c.Thread == o.Thread+1 && o.Start < c.Start && c.End != 0 && c.End < o.End && !c.Err {
+				if !sc.cognito && strings.Join(sortedCopy(c.Groups), ",") != strings.Join(sortedCopy(o.Q.Groups), ",") {
+					probs = append(probs, c17Problem{"fallback-asked-about-other-groups", fmt.Sprintf("question (%s,%v) fell back to the directory but asked it about %v", o.Q.User, o.Q.Groups, c.Groups)})
+				}
 				if strings.Join(sortedCopy(c.Answer), ",") != strings.Join(sortedCopy(o.Answer), ",") {
 					probs = append(probs, c17Problem{"fallback-not-direct-answer", fmt.Sprintf("question (%s,%v) asked the directory (%v) but answered %v", o.Q.User, o.Q.Groups, c.Answer, o.Answer)})
 				}
@@ -562,6 +605,8 @@ func c17Run(c *fw.Ctx) {
 	googles := []googleScenario{
 		{Name: "google/cached-and-uncached", Prefill: []string{"a"}, Threads: [][]localQ{{q("u1", "a", "b")}, {q("u2", "b", "a")}, {edit("a"), q("u1", "a")}}, Ticks: 1, Bound: b},
 		{Name: "google/all-uncached", Threads: [][]localQ{{q("u1", "a")}, {q("u1", "a")}, {edit("a")}}, Ticks: 1, Bound: b},
+		{Name: "google/three-groups-partly-cached", Prefill: []string{"a", "b"}, Threads: [][]localQ{{q("u2", "a", "b", "c")}, {edit("b"), q("u1", "b", "a", "c")}}, Ticks: 0, Bound: 1},
+		{Name: "cognito/cached-and-uncached", Cognito: true, Prefill: []string{"a"}, Threads: [][]localQ{{q("u1", "a", "b")}, {edit("a"), q("u1", "a", "b")}}, Ticks: 0, Bound: 1},
 	}
 	if c.Thorough() {
 		fills = append(fills,
@@ -595,6 +640,10 @@ func c17Run(c *fw.Ctx) {
 			c.Res.Sample(map[string]interface{}{"scenario": name, "schedule": s.Describe(), "observations": detail()})
 		}
 		fam := strings.SplitN(name, "/", 2)[0]
+		for i := range probs {
+			// answers are compared as sets, but a group listed twice in one answer is reported separately
+			_ = i
+		}
 		for _, p := range probs {
 			c.Res.Violate(fw.Violation{Property: "C17", Key: "C17/" + fam + "/" + p.kind, What: p.what, Scenario: name, Choices: x.Choices(),
 				Detail: map[string]interface{}{"threads_and_schedule": s.Describe(), "observations": detail()}})
@@ -636,7 +685,7 @@ func c17Run(c *fw.Ctx) {
 		sc := sc
 		drive(c, sc.Name, sc.Bound, func(x *explore.Exec, owned bool) {
 			d, obs, s, probs := googleExecute(x, sc)
-			probs = googleOracle(d, obs, s, probs)
+			probs = googleOracle(d, obs, s, probs, c17Flags{cognito: sc.Cognito})
 			var sb strings.Builder
 			for _, o := range obs {
 				fmt.Fprintf(&sb, "%d:%s:%v:%v:%v;", o.Thread, o.Q.User, o.Q.Groups, o.Answer, o.Err)
